@@ -31,9 +31,9 @@ import translate  # noqa: E402
 # which Lean property files carry the theorems of each property
 PROPERTY_FILES = {
     "C01": ["C01", "SrcLin"], "C02": ["C02", "SrcHll"], "C03": ["C03", "SrcHH"], "C04": ["C04", "SrcHH"], "C05": ["C05", "C05Log", "SrcLin"],
-    "C06": ["C06", "C06Unbias", "SrcRand"], "C07": ["C07"], "C08": ["C08", "C08Compose"], "C09": ["C09", "C09Link", "SrcLin"], "C10": ["C10"],
+    "C06": ["C06", "C06Unbias", "C09Link", "SrcRand"], "C07": ["C07"], "C08": ["C08", "C08Compose"], "C09": ["C09", "C09Link", "SrcLin"], "C10": ["C10"],
     "C11": ["C11"], "C12": ["C12"], "C13": ["C13", "SrcHH"], "C14": ["C14"], "C15": ["C15"], "C16": ["C16"],
-    "C17": ["C17"], "C18": ["C18", "SrcLin"], "C19": ["C19", "SrcPar"], "C20": ["C20"],
+    "C17": ["C17"], "C18": ["C18", "C09Link", "SrcLin"], "C19": ["C19", "SrcPar"], "C20": ["C20"],
 }
 
 
